@@ -157,7 +157,23 @@ where
 
     writeln!(writer, "#[derive(Debug, Default, YaSerialize, YaDeserialize)]")?;
     if let Some(tns) = &target_namespace {
-        let namespaces = format!("\"{}\" = \"{}\"", tns.abbreviation, tns.namespace);
+        // declare the namespace of the type and of every member that lives in another namespace (inherited from a
+        // base type or referring to an element of another schema), otherwise their prefixes are written undeclared
+        let mut declared = vec![tns];
+        for field_tns in fields
+            .iter()
+            .filter(|f| !f.is_attribute)
+            .filter_map(|f| f.target_namespace.as_ref())
+        {
+            if !declared.iter().any(|ns| ns.namespace == field_tns.namespace) {
+                declared.push(field_tns);
+            }
+        }
+        let namespaces = declared
+            .iter()
+            .map(|ns| format!("\"{}\" = \"{}\"", ns.abbreviation, ns.namespace))
+            .collect::<Vec<String>>()
+            .join(", ");
         writeln!(
             writer,
             "#[yaserde(prefix = \"{}\", namespaces = {{{}}}, rename = \"{}\")]",
